@@ -59,9 +59,26 @@ static int walk(struct ubuf *u, uint8_t *out, int max, int *nseg)
     return n;
 }
 
+/* environment deviation (--faults N): "the k-th next memory request is refused". umem_alloc.c, ubuf_block_mem.c and
+ * ubuf_mem_common.c are compiled with -Dmalloc=vf_malloc for this harness, so buffer areas and the buffer / shared-area
+ * descriptors all count. An operation that fails because of a refusal must leave the block exactly as it was. */
+static int g_faults, vf_fail_in, vf_faults, g_faults_armed;
+void *vf_malloc(size_t n);
+void *vf_malloc(size_t n)
+{
+    if (vf_fail_in > 0 && --vf_fail_in == 0) {
+        vf_faults++;
+        return NULL;
+    }
+    return (malloc)(n);
+}
+
 static struct ubuf *blk_alloc(struct st *s, int size)
 {
+    int armed = vf_fail_in; /* the harness's own operands are not part of the fault space */
+    vf_fail_in = 0;
     struct ubuf *u = ubuf_block_alloc(s->mgr, size);
+    vf_fail_in = armed;
     if (u == NULL)
         return NULL;
     struct ubuf_block *b = ubuf_block_from_ubuf(u);
@@ -80,6 +97,7 @@ static struct ubuf *blk_alloc(struct st *s, int size)
 static void *c03_init(void)
 {
     struct st *s = calloc(1, sizeof(*s));
+    vf_fail_in = vf_faults = g_faults_armed = 0;
     s->umem = umem_alloc_mgr_alloc();
     s->mgr = ubuf_block_mem_mgr_alloc(g_pool, g_pool, s->umem, g_prepend, g_append, g_align, 0);
     s->main = blk_alloc(s, g_n0);
@@ -103,9 +121,9 @@ static void c03_fini(void *p)
 
 /* ---- alphabet ---- */
 enum kind { K_TOUCH, K_APPEND, K_INSERT, K_DELETE, K_TRUNCATE, K_RESIZE, K_PREPEND,
-            K_SPLICE, K_SPLIT, K_COPY, K_MERGE, K_DUP, K_FREEOP, K_APPENDOP, K_INSERTOP, K_NKINDS };
+            K_SPLICE, K_SPLIT, K_COPY, K_MERGE, K_DUP, K_FREEOP, K_APPENDOP, K_INSERTOP, K_FAULT, K_NKINDS };
 static const char *kname[] = {"touch", "append", "insert", "delete", "truncate", "resize", "prepend",
-                              "splice", "split", "copy", "merge", "dup", "free_opnd", "append_opnd", "insert_opnd"};
+                              "splice", "split", "copy", "merge", "dup", "free_opnd", "append_opnd", "insert_opnd", "refuse_memory_request"};
 struct op {
     int kind, o, s;
 };
@@ -157,6 +175,10 @@ static void build_alphabet(void)
             add_op(K_COPY, o, g_sizes[i]);
             add_op(K_MERGE, o, g_sizes[i]);
         }
+    if (g_faults) {
+        add_op(K_FAULT, 1, 0);
+        add_op(K_FAULT, 2, 0);
+    }
 }
 
 static void c03_opstr(int op, char *b, size_t n)
@@ -439,7 +461,14 @@ static int c03_apply(void *p, int opi, bool check)
     int adopt_from = -1, adopt_to = -1; /* model positions whose value is adopted from memory */
     char sig[160];
 
+    int faults0 = vf_faults;
     switch (op->kind) {
+    case K_FAULT:
+        if (g_faults_armed >= g_faults || vf_fail_in != 0)
+            return SEQX_DISABLED;
+        vf_fail_in = op->o;
+        g_faults_armed++;
+        return SEQX_OK;
     case K_TOUCH: {
         size_t lin;
         ubuf_block_size_linear(s->main, o, &lin);
@@ -667,7 +696,7 @@ static int c03_apply(void *p, int opi, bool check)
     size_t tot = 0;
     ubuf_block_size(s->main, &tot);
     if (!ok) {
-        if (must == 1) {
+        if (must == 1 && vf_faults == faults0) {
             snprintf(sig, sizeof(sig), "%s:refused-valid", kname[op->kind]);
             SEQX_FAIL(sig, "%s(%d,%d) on a %d-byte block failed although the request is in range", kname[op->kind], o, sz, n);
         }
@@ -766,6 +795,8 @@ static void c03_canon(void *p, struct vbuf *out)
     int na = 0;
     canon_block(s->main, out, areas, &na);
     canon_block(s->opnd, out, areas, &na);
+    vbuf_u8(out, (uint8_t)vf_fail_in);
+    vbuf_u8(out, (uint8_t)g_faults_armed);
 }
 
 static long long g_sweeps;
@@ -794,9 +825,12 @@ static int c03_final(void *p)
     if (g_fresh) {
         g_fresh = false;
         g_sweeps++;
+        int armed = vf_fail_in; /* the sweep's own scratch blocks are not part of the fault space */
+        vf_fail_in = 0;
         r = sweep(s, s->main, &s->mm);
         if (r == SEQX_OK && s->opnd != NULL)
             r = sweep(s, s->opnd, &s->mo);
+        vf_fail_in = armed;
     }
     c03_fini(s);
     return r;
@@ -812,6 +846,7 @@ int main(int argc, char **argv)
         else if (!strcmp(argv[i], "--append")) g_append = atoi(argv[++i]);
         else if (!strcmp(argv[i], "--align")) g_align = atoi(argv[++i]);
         else if (!strcmp(argv[i], "--pool")) g_pool = atoi(argv[++i]);
+        else if (!strcmp(argv[i], "--faults")) g_faults = atoi(argv[++i]);
         else if (!strcmp(argv[i], "--n0")) g_n0 = atoi(argv[++i]);
         else if (!strcmp(argv[i], "--maxn")) g_maxn = atoi(argv[++i]);
         else if (!strcmp(argv[i], "--maxseg")) g_maxseg = atoi(argv[++i]);
